@@ -5,6 +5,7 @@ CONSTANTS
   Segs <- SegsQuick
   Depth = 4
   Mode = "fixed"
+  StopAtOOR = TRUE
   CowAlphabet = {}
   CowMaxLen = 0
 INVARIANTS ApplyMeetsPost NoEmptyChunk LenIsSum PanicOnlyOutOfRange Emit
